@@ -99,7 +99,12 @@ struct Summary {
     samples: Vec<Value>,
     max_ms: u64,
     restarts: u64,
+    /// cases not executed because the run had already lost HARD_LIMIT workers (crashes / hangs): the run is a failure
+    /// anyway, and every further hang would cost another full time limit
+    skipped: u64,
 }
+
+const HARD_LIMIT: u64 = 24;
 
 enum FromChild {
     Line(String),
@@ -168,6 +173,23 @@ fn manager(family: String, work: Arc<Mutex<Receiver<(u64, String)>>>, opts: Arc<
     let mut last_progress = Instant::now();
     let mut cpu_at_progress: u64 = 0;
     loop {
+        if summary.lock().unwrap().restarts >= HARD_LIMIT {
+            // give up: drop what is in flight and drain the queue without executing anything
+            let mut dropped = inflight.len() as u64;
+            inflight.clear();
+            loop {
+                let item = work.lock().unwrap().recv_timeout(Duration::from_millis(50));
+                match item {
+                    Ok(_) => dropped += 1,
+                    Err(RecvTimeoutError::Timeout) => continue,
+                    Err(RecvTimeoutError::Disconnected) => break,
+                }
+            }
+            summary.lock().unwrap().skipped += dropped;
+            let _ = run.child.kill();
+            let _ = run.child.wait();
+            return;
+        }
         // Fill the window.
         while !work_done && inflight.len() < WINDOW {
             // Never block on the shared queue while results may be pending, and never hold its lock for long.
@@ -413,6 +435,7 @@ pub fn replay_main(family: &str, rest: &[String]) -> i32 {
         "samples": s.samples,
         "max_case_ms": s.max_ms,
         "worker_restarts": s.restarts,
+        "skipped_after_too_many_crashes": s.skipped,
         "wall_s": t0.elapsed().as_secs_f64(),
     });
     let text = serde_json::to_string(&out).unwrap();
